@@ -176,7 +176,7 @@ fn eval_builtin_incbin(
         }
     };
 
-    if bytes.len() == 0
+    if bytes.len() == 0 && query.args.len() < 2
     {
         return Ok(expr::Value::make_integer(util::BigInt::from_bytes_be(&[])));
     }
